@@ -179,6 +179,17 @@ Theorem ref_spec : forall cf c name c' proto s off,
   UE cf c name (ERefPkt c' proto) s off =
   match rec c' off with POk v o' t => FOk (slot_set s name v) o' t | PFail st => FFail st | PFuel => FFuel end.
 Proof. intros. reflexivity. Qed.
+(* a count that is not positive, no when-condition and no until-condition: the empty list, nothing consumed, nothing read *)
+Theorem seq_count_nonpositive : forall cf c i e ce d al s off ipp n,
+  eval_int (mkctx raw (slot_set s (FN i) (VList [])) off) ce = Ok n ->
+  n <= 0 ->
+  UF cf c (CSeq i e (Some ce) None None d al) s off ipp = FOk (slot_set s (FN i) (VList [])) off [].
+Proof.
+  intros cf c i e ce d al s off ipp n Hn Hle. unfold UF. cbn [unpack_field]. rewrite Hn.
+  replace (Z.to_nat n) with O by (destruct n; [reflexivity | exfalso; apply Hle; reflexivity | reflexivity]).
+  reflexivity.
+Qed.
+
 End Ctl.
 
 (* an absent optional emits nothing when serializing *)
@@ -189,6 +200,7 @@ Proof.
 Qed.
 
 Print Assumptions seq_skipped.
+Print Assumptions seq_count_nonpositive.
 Print Assumptions seq_count_length.
 Print Assumptions until_final.
 Print Assumptions until_stops_at_once.
